@@ -377,7 +377,7 @@ Definition extspec_step (e : env) (p : pod) : option pod :=
   end.
 
 (* handleCreate / handleUpdate restricted to the two mutators of this property *)
-Definition admit (e : env) (op : Z) (ps : list profile) (p : pod) : option pod :=
+Definition admit_pod (e : env) (op : Z) (ps : list profile) (p : pod) : option pod :=
   if op =? OP_CREATE then
     match profile_step e ps p with
     | None => None
